@@ -1100,7 +1100,10 @@ def processSMPTLV (K : Crypto) (t : Tlv) : M (Option Tlv) := do
 
 def processDisconnectedTLV : M Unit := do
   let prev := (← getc).msgState
-  modc fun c => { c with lastMessageStateChange := none, msgState := .finished, smp := {}, ake := none, keys := {} }
+  -- repaired code: the MAC keys used in the conversation that ends here (and those already waiting) are
+  -- kept to be revealed in the first data message of the next conversation, as after End()
+  modc fun c => { c with lastMessageStateChange := none, msgState := .finished, smp := {}, ake := none,
+                         keys := { oldMACKeys := c.keys.oldMACKeys ++ c.keys.macHistory.map (·.key) } }
   if prev == .encrypted then secEvent secGoneInsecure
 
 def processExtraSymmetricKeyTLV (t : Tlv) (extraKey : Bytes) : M Unit := do
